@@ -248,8 +248,11 @@ static void walk_tree(ctx_t *c, const sqfs_tree_node_t *n, int depth)
 		if (sqfs_xattr_reader_read_all(c->xr, idx, &xl) == 0)
 			sqfs_xattr_list_free(xl);
 	}
-	if (is_file(n->inode))
+	if (is_file(n->inode)) {
 		file_all_apis(c, n->inode, &agree);
+		if (!agree)
+			printf("DISAGREE inode=%u stream and positional read differ\n", n->inode->base.inode_number);
+	}
 	for (it = n->children; it != NULL; it = it->next)
 		if (depth < 4000)
 			walk_tree(c, it, depth + 1);
